@@ -596,9 +596,33 @@ def rule_e6(repo, col):
 
 ARITY_TYPES = {"And", "Or", "Not", "Clause", "AnnotatedDisjunction"}
 E7_TABLE = {
-    ("ClauseDB._compile", "new_arg.args[0]"): "new_arg is the temporary '_'(X) wrapper the compiler itself built two statements earlier (a.functor == '_')",
     ("ClauseDB.iter_raw", "node.functor.args[0]"): "database-internal node produced by _compile, not program text",
 }
+
+
+def _own_wrapper(func, base, st):
+    """`base` is `<v>.apply(...)` of a term <v> whose functor is known to be '_' here: the one-argument '_'(X) wrapper the compiler itself builds
+    around a raw variable (a user cannot write the functor '_': the parser reads it as a variable)"""
+    srcs = set()
+    for n in walk_no_nested(func.node):
+        if isinstance(n, ast.Assign) and len(n.targets) == 1 and norm(n.targets[0]) == base:
+            v = n.value
+            if isinstance(v, ast.Call) and isinstance(v.func, ast.Attribute) and v.func.attr == "apply" and isinstance(v.func.value, ast.Name):
+                srcs.add(v.func.value.id)
+            elif norm(v) == "%s.args[0]" % base:
+                continue  # the unwrapping statement itself
+            else:
+                return None
+    if len(srcs) != 1:
+        return None
+    v = srcs.pop()
+    if ("%s.functor == '_'" % v, True) not in st:
+        return None
+    wraps = [n for n in walk_no_nested(func.node) if isinstance(n, ast.Assign) and norm(n.targets[0]) == v and isinstance(n.value, ast.Call) and dotted(n.value.func) == "Term"
+             and len(n.value.args) == 2 and isinstance(n.value.args[0], ast.Constant) and n.value.args[0].value == "_"]
+    if not wraps:
+        return None
+    return "%s is %s.apply(..) of the one-argument '_'(X) wrapper built in this function (%s.functor == '_' holds here)" % (base, v, v)
 
 
 # sites whose term was validated by ClauseDB._predicate_list (every element is name/arity, or 'as'(name/arity, alias) of arity 2)
@@ -627,12 +651,16 @@ def _validator_ok(c):
     return shape and users == 2 and loops_ok
 
 
-def _arity_known(facts, base, k):
+def _arity_known(facts, base, k, menv=None):
     import re as _re
 
     for src, truth in facts:
         if not truth:
             continue
+        if menv:
+            mm = _re.match(r"^(.*\.signature) == (\w+)$", src)
+            if mm and isinstance(menv.get(mm.group(2)), str):
+                src = "%s == %r" % (mm.group(1), menv[mm.group(2)])
         mm = _re.match(r"^%s\.arity (==|>=|>) (\d+)$" % _re.escape(base), src)
         if mm:
             op, nn = mm.group(1), int(mm.group(2))
@@ -662,6 +690,7 @@ def rule_e7(repo, col):
     for mn, cname in (("problog.clausedb", "ClauseDB"), ("problog.engine", "ClauseDBEngine")):
         c = repo.cls(mn, cname)
         m = c.module
+        menv = m.module_constants()
         for f in c.methods.values():
             sites = [x for x in walk_no_nested(f.node) if isinstance(x, ast.Subscript) and isinstance(x.value, ast.Attribute) and x.value.attr == "args"
                      and isinstance(x.slice, ast.Constant) and isinstance(x.slice.value, int) and isinstance(x.ctx, ast.Load)]
@@ -679,9 +708,13 @@ def rule_e7(repo, col):
                 if st is None:
                     col.ok("E7", m, sub, "unreachable", function=f.qualname)
                     continue
-                why = _arity_known(st, base, k)
+                why = _arity_known(st, base, k, menv)
                 if why:
                     col.ok("E7", m, sub, "arity known: %s" % why, function=f.qualname)
+                    continue
+                why = _own_wrapper(f, base, st) if k == 0 else None
+                if why:
+                    col.ok("E7", m, sub, "own wrapper: %s" % why, function=f.qualname)
                     continue
                 key = (f.qualname, norm(sub))
                 if key in E7_TABLE:
